@@ -189,12 +189,20 @@ def ex_rules(ctx: Ctx, shapes: Shapes, funcs=None):
 
 
 def shapes_contradiction(shapes: Shapes, state, fi, res):
-    """A path condition `t is None` on a term whose summary never yields None is infeasible."""
+    """A path condition that contradicts the shape of the term it constrains is infeasible:
+    `t is None` where t's summary never yields None; `t` truthy where t can only be empty/None/0; and dually."""
+    from ..shape import FALSY, TRUTHY
     for k, v in state.facts.items():
-        if v and k[0] == "cmp" and k[1] == "Is" and k[3] == NONE:
-            others = {kk: vv for kk, vv in state.facts.items() if kk != k and kk != k[2]}
-            s = shapes.shape(k[2], others, fi, None, res)
-            if s and s != TOP and N not in s:
+        if k[0] == "cmp" and k[1] == "Is" and k[3] == NONE:
+            t = k[2]
+            others = {kk: vv for kk, vv in state.facts.items() if kk != k and kk != t}
+            s = shapes.shape(t, others, fi, None, res)
+            if s and s != TOP and ((v and N not in s) or ((not v) and s <= {N})):
+                return True
+        elif k[0] in ("call", "attr", "sub", "item", "fstr", "binop"):
+            others = {kk: vv for kk, vv in state.facts.items() if kk != k and not (kk[0] == "cmp" and kk[2] == k)}
+            s = shapes.shape(k, others, fi, None, res)
+            if s and s != TOP and ((v and s <= FALSY) or ((not v) and s <= TRUTHY)):
                 return True
     return False
 
